@@ -149,7 +149,7 @@ def vcs(B):
     quaternion_route(B)
 
 
-def matrix_route(B, norm_axioms, pre=''):
+def matrix_route(B, norm_axioms, pre='', bound='0.999999'):
     """'converting any rotation to angles and back returns the same rotation': for every proper rotation matrix R with |R(2,0)| < 1,
     Rz*Ry*Rx of rotation3DToEulerAngles(R) is R.  (eulerAnglesToRotation3D and SmartRotation3D are each proved to return Rz*Ry*Rx of
     their angles for ALL angles, so this closes R -> angles -> R for both.)  Three kinds of VC: what the sine and cosine of each
@@ -176,7 +176,8 @@ def matrix_route(B, norm_axioms, pre=''):
     det = add(sub(mul(r(0, 0), sub(mul(r(1, 1), r(2, 2)), mul(r(1, 2), r(2, 1)))), mul(r(0, 1), sub(mul(r(1, 0), r(2, 2)), mul(r(1, 2), r(2, 0))))),
               mul(r(0, 2), sub(mul(r(1, 0), r(2, 1)), mul(r(1, 1), r(2, 0)))))
     orth.append(app('=', det, '1.0'))
-    dom = [app('<', '(- 1.0)', r(2, 0)), app('<', r(2, 0), '1.0')]
+    # the property's quantifier: |R(2,0)| <= 1 - 1e-6 (C10); C11 passes its own bound (attitude 1e-3 rad away from gimbal lock)
+    dom = [app('<=', '(- %s)' % bound, r(2, 0)), app('<=', r(2, 0), bound)]
     raw = [app('f_atan2', r(2, 1), r(2, 2)), neg(app('f_asin', r(2, 0))), app('f_atan2', r(1, 0), r(0, 0))]
     names = ('roll', 'pitch', 'yaw')
     # (1) the normaliser keeps sine and cosine
